@@ -266,19 +266,19 @@ Proof.
     destruct l as [|f l']; [discriminate|]. destruct forms as [|[v0 u0] forms']; [inversion HF|].
     inversion HF as [|? ? ? ? Hf Hrest]; subst. cbn [map fst] in *.
     destruct l' as [|g l''].
-    + inversion Hrest as [|]; subst. destruct forms'; [|discriminate]. intro H. apply Ok_inj in H. subst h.
+    + inversion Hrest as [|]; subst. destruct forms'; [|discriminate]. intro Hh. apply Ok_inj in Hh. subst h.
       cbn [map forms_skel]. apply Good_app_nil_r; [|apply Good_escape].
       apply (Good_t (s "span") f [cls "rg-quantity-without-conversions rg-scaled-value"] (number_skel v0));
         [tag_const | apply attrs_ok_cls; val_const | exact Hf].
-    + destruct forms' as [|[v1 u1] forms'']; [inversion Hrest|]. intro H. apply Ok_inj in H. subst h.
+    + destruct forms' as [|[v1 u1] forms'']; [inversion Hrest|]. intro Hh. apply Ok_inj in Hh. subst h.
       cbn [map fst forms_skel]. apply Good_app_nil_r; [|apply Good_escape].
       apply (Good_t (s "span") _ [cls "rg-quantity-with-conversions rg-scaled-value"; (s "tabindex", s "0")]);
         [tag_const | apply attrs_ok_2; val_const |].
       apply Good_app; [exact Hf|].
       apply (Good_t (s "ul") _ [cls "rg-quantity-conversions"]); [tag_const | apply attrs_ok_cls; val_const |].
-      apply Good_join_nl. pose proof (Forall2_li _ _ Hrest) as HL. cbn [map fst] in HL.
-      rewrite map_map in HL. exact HL.
-  - destruct (render_number (q_value q)) as [n|] eqn:En; [|discriminate]. intro H. apply Ok_inj in H. subst h.
+      apply Good_join_nl. pose proof (Forall2_li _ _ Hrest) as HL. rewrite map_map in HL.
+      change (v1 :: map fst forms'') with (map fst ((v1, u1) :: forms'')). rewrite map_map. exact HL.
+  - destruct (render_number (q_value q)) as [n|] eqn:En; [|discriminate]. intro Hh. apply Ok_inj in Hh. subst h.
     apply Good_app_nil_r; [|apply Good_escape].
     apply (Good_t (s "span") n [cls "rg-quantity-unitless rg-scaled-value"] (number_skel (q_value q)));
       [tag_const | apply attrs_ok_cls; val_const | exact (Good_render_number _ _ En)].
@@ -321,4 +321,214 @@ Proof.
     apply Good_app_nil_r; [exact (Good_render_number _ _ En) | apply Good_times_escape].
   - intro H. apply Ok_inj in H. subst h.
     apply (Good_t (s "span") _ [cls "rg-proportion-remainder"] []); [tag_const | apply attrs_ok_cls; val_const | apply Good_escape].
+Qed.
+
+(** ** Attribute values derived from user text: ids *)
+Lemma val_ok_app a b : val_ok a -> val_ok b -> val_ok (a ++ b).
+Proof. unfold val_ok. intros Ha Hb. rewrite forallb_app, Ha, Hb. reflexivity. Qed.
+
+Lemma id_char_val c : id_char_ok c = true -> negb (is_linebreak c) && negb (c =? 0) = true.
+Proof.
+  intro H. apply andb_true_iff. split; apply negb_true_iff.
+  - destruct (is_linebreak c) eqn:E; [|reflexivity]. unfold is_linebreak in E. apply memN_In_iff in E. cbn in E.
+    repeat (destruct E as [<- | E]; [vm_compute in H; discriminate|]). destruct E.
+  - apply N.eqb_neq. intro E. subst c. vm_compute in H. discriminate.
+Qed.
+
+Lemma id_val_ok names idx prefix i :
+  val_ok prefix -> generate_subrecipe_output_id names idx prefix = Ok i -> val_ok i.
+Proof.
+  intros Hp H. destruct (id_charset names idx prefix i H) as [n [-> Hn]].
+  apply val_ok_app; [exact Hp|]. unfold val_ok. apply forallb_forall. intros c Hc.
+  rewrite Forall_forall in Hn. exact (id_char_val c (Hn c Hc)).
+Qed.
+
+Lemma digits_val_ok x : all_digits x = true -> val_ok x.
+Proof.
+  unfold all_digits, val_ok. rewrite !forallb_forall. intros H c Hc. specialize (H c Hc).
+  unfold is_digit in H. apply andb_true_iff in H as [H1 H2]. apply N.leb_le in H1, H2.
+  apply andb_true_iff. split; apply negb_true_iff.
+  - unfold is_linebreak, memN. cbn [existsb]. repeat (apply orb_false_iff; split); try reflexivity; apply N.eqb_neq; lia.
+  - apply N.eqb_neq. lia.
+Qed.
+
+(** ** Ingredients, references, output lists *)
+Definition tag_a : str := s "a".
+Definition a_href : str := s "href".
+Definition a_id : str := s "id".
+
+Definition ingredient_skel (d : svs) (q : option quantity) : list skel :=
+  match q with Some q0 => quantity_skel q0 | None => [] end ++ svs_skel d.
+
+Lemma Good_render_ingredient d q h : render_ingredient d q = Ok h -> Good h (ingredient_skel d q).
+Proof.
+  unfold render_ingredient, ingredient_skel. destruct q as [q0|].
+  - destruct (render_quantity q0) as [x|] eqn:Eq; [|discriminate].
+    destruct (render_svs d) as [b|] eqn:Ed; [|discriminate]. intro H. apply Ok_inj in H. subst h.
+    apply Good_app; [|exact (Good_render_svs d b Ed)].
+    apply Good_app_nil_r; [exact (Good_render_quantity q0 x Eq) | exact Good_space].
+  - destruct (render_svs d) as [b|] eqn:Ed; [|discriminate]. intro H. apply Ok_inj in H. subst h.
+    cbn [app]. exact (Good_render_svs d b Ed).
+Qed.
+
+Definition amount_skel (amt : amount) : list skel :=
+  match amt with
+  | AQty q => quantity_skel q
+  | AProp (PropVal v pc pr) => if num_eqb v float_one then [] else proportion_skel (PropVal v pc pr)
+  | AProp p => proportion_skel p
+  end.
+
+Definition reference_skel (sub : node) (idx : nat) (amt : amount) : list skel :=
+  match sub with
+  | SubRecipe _ names _ =>
+      match nth_error names idx with
+      | Some nm => KStart tag_a [a_href] false :: (amount_skel amt ++ svs_skel nm) ++ [KEnd tag_a]
+      | None => []
+      end
+  | _ => []
+  end.
+
+Lemma Good_render_reference sub idx amt prefix h : val_ok prefix ->
+  render_reference sub idx amt prefix = Ok h -> Good h (reference_skel sub idx amt).
+Proof.
+  intro Hp. unfold render_reference, reference_skel.
+  set (am := match amt with
+             | AQty q => match render_quantity q with Ok x => Ok (x ++ [32]) | Err e => Err e end
+             | AProp (PropVal v pc pr) =>
+                 if num_eqb v float_one then Ok []
+                 else match render_proportion (PropVal v pc pr) with Ok x => Ok (x ++ [32]) | Err e => Err e end
+             | AProp p => match render_proportion p with Ok x => Ok (x ++ [32]) | Err e => Err e end
+             end).
+  assert (HA : forall a, am = Ok a -> Good a (amount_skel amt)).
+  { intros a Ea. unfold am in Ea. destruct amt as [q|[v pc pr|w pr]]; cbn [amount_skel].
+    - destruct (render_quantity q) as [x|] eqn:E; [|discriminate]. apply Ok_inj in Ea. subst a.
+      apply Good_app_nil_r; [exact (Good_render_quantity q x E) | exact Good_space].
+    - destruct (num_eqb v float_one).
+      + apply Ok_inj in Ea. subst a. apply Good_nil.
+      + destruct (render_proportion (PropVal v pc pr)) as [x|] eqn:E; [|discriminate]. apply Ok_inj in Ea. subst a.
+        apply Good_app_nil_r; [exact (Good_render_proportion _ x E) | exact Good_space].
+    - destruct (render_proportion (PropRem w pr)) as [x|] eqn:E; [|discriminate]. apply Ok_inj in Ea. subst a.
+      apply Good_app_nil_r; [exact (Good_render_proportion _ x E) | exact Good_space]. }
+  clearbody am. destruct am as [a|]; [|discriminate].
+  destruct sub as [| | |b names sh]; try discriminate.
+  destruct (nth_error names idx) as [nm|]; [|discriminate].
+  destruct (render_svs nm) as [n|] eqn:En; [|discriminate].
+  destruct (generate_subrecipe_output_id names idx prefix) as [i|] eqn:Ei; [|discriminate].
+  intro H. apply Ok_inj in H. subst h.
+  apply (Good_t (s "a") (a ++ n) [(s "href", [35] ++ i)] (amount_skel amt ++ svs_skel nm)).
+  - tag_const.
+  - apply attrs_ok_cons; [aname_const | | constructor].
+    apply val_ok_app; [val_const | exact (id_val_ok names idx prefix i Hp Ei)].
+  - apply Good_app; [exact (HA a eq_refl) | exact (Good_render_svs nm n En)].
+Qed.
+
+Definition outputs_skel (names : list svs) : list skel :=
+  KStart tag_ul [a_class] false
+  :: List.concat (map (fun nm => li_skel [a_id] (svs_skel nm)) names) ++ [KEnd tag_ul].
+
+Lemma render_output_items_Good prefix all : val_ok prefix -> forall names idx items,
+  render_output_items names all idx prefix = Ok items ->
+  Forall2 Good items (map (fun nm => li_skel [a_id] (svs_skel nm)) names).
+Proof.
+  intro Hp. induction names as [|nm rest IH]; intros idx items H; cbn [render_output_items] in H.
+  - apply Ok_inj in H. subst items. constructor.
+  - destruct (render_svs nm) as [n|] eqn:En; [|discriminate].
+    destruct (generate_subrecipe_output_id all idx prefix) as [i|] eqn:Ei; [|discriminate].
+    destruct (render_output_items rest all (S idx) prefix) as [r|] eqn:Er; [|discriminate].
+    apply Ok_inj in H. subst items. cbn [map]. constructor; [|exact (IH _ _ Er)].
+    apply (Good_t (s "li") n [(s "id", i)] (svs_skel nm)).
+    + tag_const.
+    + apply attrs_ok_cons; [aname_const | exact (id_val_ok all idx prefix i Hp Ei) | constructor].
+    + exact (Good_render_svs nm n En).
+Qed.
+
+Lemma Good_render_outputs names prefix h : val_ok prefix ->
+  render_sub_recipe_outputs names prefix = Ok h -> Good h (outputs_skel names).
+Proof.
+  intro Hp. unfold render_sub_recipe_outputs.
+  destruct (render_output_items names names 0 prefix) as [items|] eqn:E; [|discriminate].
+  intro H. apply Ok_inj in H. subst h.
+  apply (Good_t (s "ul") _ [cls "rg-sub-recipe-output-list"]); [tag_const | apply attrs_ok_cls; val_const |].
+  apply Good_join_nl. exact (render_output_items_Good prefix names Hp names 0%nat items E).
+Qed.
+
+(** ** Cells *)
+Definition cell_body_skel (v : node) : list skel :=
+  match v with
+  | Ingredient d q => ingredient_skel d q
+  | Reference sub idx amt => reference_skel sub idx amt
+  | Step d _ => svs_skel d
+  | SubRecipe _ [nm] _ => svs_skel nm
+  | SubRecipe _ names _ => outputs_skel names
+  end.
+
+Definition kind_classes : list str :=
+  [s "rg-ingredient"; s "rg-reference"; s "rg-step"; s "rg-sub-recipe-header"; s "rg-sub-recipe-outputs"].
+
+Lemma Good_render_cell_body v prefix k b : val_ok prefix ->
+  render_cell_body v prefix = Ok (k, b) -> Good b (cell_body_skel v) /\ In k kind_classes.
+Proof.
+  intro Hp. destruct v as [d q|d ins|sub idx amt|body names sh]; cbn [render_cell_body cell_body_skel].
+  - destruct (render_ingredient d q) as [x|] eqn:E; [|discriminate]. intro H. apply Ok_inj in H. inversion H; subst.
+    split; [exact (Good_render_ingredient d q b E) | left; reflexivity].
+  - destruct (render_svs d) as [x|] eqn:E; [|discriminate]. intro H. apply Ok_inj in H. inversion H; subst.
+    split; [exact (Good_render_svs d b E) | right; right; left; reflexivity].
+  - destruct (render_reference sub idx amt prefix) as [x|] eqn:E; [|discriminate]. intro H. apply Ok_inj in H.
+    inversion H; subst. split; [exact (Good_render_reference sub idx amt prefix b Hp E) | right; left; reflexivity].
+  - destruct names as [|nm [|nm2 rest]].
+    + destruct (render_sub_recipe_outputs [] prefix) as [x|] eqn:E; [|discriminate]. intro H. apply Ok_inj in H.
+      inversion H; subst. split; [exact (Good_render_outputs [] prefix b Hp E) | do 4 right; left; reflexivity].
+    + destruct (render_svs nm) as [x|] eqn:E; [|discriminate]. intro H. apply Ok_inj in H. inversion H; subst.
+      split; [exact (Good_render_svs nm b E) | do 3 right; left; reflexivity].
+    + destruct (render_sub_recipe_outputs (nm :: nm2 :: rest) prefix) as [x|] eqn:E; [|discriminate].
+      intro H. apply Ok_inj in H. inversion H; subst.
+      split; [exact (Good_render_outputs _ prefix b Hp E) | do 4 right; left; reflexivity].
+Qed.
+
+Definition tag_td : str := s "td".
+Definition span_attr_names (c : hcell) : list str :=
+  (if hc_cols c =? 1 then [] else [s "colspan"]) ++ (if hc_rows c =? 1 then [] else [s "rowspan"]).
+
+(** The skeleton of a cell: a function of the kind of node, the numbers, the
+    unit lookup, the list lengths and the spans - no user string enters. *)
+Definition cell_skel (c : hcell) : list skel :=
+  KStart tag_td (a_class :: span_attr_names c) false :: cell_body_skel (hc_value c) ++ [KEnd tag_td].
+
+Lemma val_ok_join l : Forall val_ok l -> val_ok (join [32] l).
+Proof.
+  induction 1 as [|x l Hx Hl IH]; [reflexivity|]. destruct l as [|y l']; [exact Hx|].
+  change (join [32] (x :: y :: l')) with (x ++ [32] ++ join [32] (y :: l')).
+  apply val_ok_app; [exact Hx|]. apply val_ok_app; [reflexivity | exact IH].
+Qed.
+
+Lemma border_class_ok e b : val_ok (s e) -> Forall val_ok (border_class e b).
+Proof.
+  intro He. destruct b; cbn [border_class]; constructor; try constructor;
+    (apply val_ok_app; [val_const | apply val_ok_app; [exact He | val_const]]).
+Qed.
+
+Lemma span_attrs_ok c : attrs_ok (span_attrs c) /\ map fst (out_attrs (span_attrs c)) = span_attr_names c.
+Proof.
+  unfold span_attrs, span_attr_names. destruct (hc_cols c =? 1), (hc_rows c =? 1); cbn [app]; split; try reflexivity;
+    repeat (apply attrs_ok_cons; [aname_const | apply digits_val_ok, all_digits_dec_N |]); constructor.
+Qed.
+
+Theorem Good_render_cell c prefix h : val_ok prefix ->
+  render_cell c prefix = Ok h -> Good h (cell_skel c).
+Proof.
+  intro Hp. unfold render_cell.
+  destruct (render_cell_body (hc_value c) prefix) as [[k body]|] eqn:E; [|discriminate].
+  destruct (Good_render_cell_body _ _ _ _ Hp E) as [Gb Hk]. intro H. apply Ok_inj in H. subst h.
+  destruct (span_attrs_ok c) as [Hs Hn].
+  pose proof (Good_t (s "td") body
+    ((s "class_", join [32] (k :: border_class "left" (hc_left c) ++ border_class "right" (hc_right c)
+                               ++ border_class "top" (hc_top c) ++ border_class "bottom" (hc_bottom c)))
+     :: span_attrs c) (cell_body_skel (hc_value c))) as G.
+  cbn [out_attrs map fst] in G. change (map fst (map (fun p => (attr_name (fst p), snd p)) (span_attrs c)))
+    with (map fst (out_attrs (span_attrs c))) in G. rewrite Hn in G.
+  apply G; [tag_const | | exact Gb].
+  apply attrs_ok_cons; [aname_const | | exact Hs].
+  apply val_ok_join. constructor.
+  - cbn [kind_classes In] in Hk. repeat (destruct Hk as [<- | Hk]; [val_const|]). destruct Hk.
+  - repeat (apply Forall_app; split); apply border_class_ok; val_const.
 Qed.
